@@ -1334,11 +1334,15 @@ func (m *Model) applySeekS(c Call, o Obs) []Hit {
 		expired := rel(call, d.Exp)
 		if want {
 			if d.State == Acked || d.State == DeadLettered {
-				if d.MaybePruned || expired != Before {
-					// reviving something whose retention is over is left open
+				_ = expired
+				if d.MaybePruned {
+					// the row may be gone
 					d.State = Unknown
 					continue
 				}
+				// (a snapshot seek restores what the snapshot says, with fresh retention,
+				// whether or not the acknowledged delivery's old retention has ended
+				// meanwhile: the set is defined by the snapshot, not by the clock)
 				d.State = Outstanding
 				d.Due = call
 				d.Exp = call.Add(s.Cfg.RetentionOrDefault())
